@@ -205,7 +205,7 @@ Qed.
 Lemma le_of_bytes_app a : forall b, le_of_bytes (a ++ b) = le_of_bytes a + 256 ^ zlen a * le_of_bytes b.
 Proof.
   induction a as [|x a IH]; intros b.
-  - cbn [app le_of_bytes]. rewrite zlen_nil. change (256 ^ 0) with 1. lia.
+  - cbn [app le_of_bytes]. unfold zlen. cbn [length Z.of_nat]. rewrite Z.pow_0_r. lia.
   - cbn [app le_of_bytes]. rewrite IH, zlen_cons.
     replace (1 + zlen a) with (Z.succ (zlen a)) by lia. rewrite Z.pow_succ_r by apply zlen_nonneg. lia.
 Qed.
@@ -235,7 +235,7 @@ Qed.
 Lemma be_min_value v : 0 <= v -> be_of_bytes (be_min v) = v.
 Proof.
   intros Hv. unfold be_min. rewrite be_digits_value.
-  - rewrite zlen_nil. unfold be_of_bytes. cbn. lia.
+  - unfold zlen, be_of_bytes. cbn [length Z.of_nat rev le_of_bytes]. rewrite Z.pow_0_r. lia.
   - rewrite Z2Nat.id by (pose proof (Z.log2_nonneg v); lia).
     destruct (Z.eq_dec v 0) as [E|NE].
     + subst v. cbn. lia.
@@ -254,12 +254,12 @@ Proof.
   split; [reflexivity|].
   assert (D : forall tt, dec_class_of tt = DDec -> bytesize tt = -1 ->
               dec_value tt ((if x <? 0 then 1 else 0) :: be_min (Z.abs x)) = Ok (VDec 18 0 (Some x))).
-  { intros tt Hc Hs. unfold dec_value. rewrite Hc, Hs. cbn [Z.eqb negb andb].
+  { intros tt Hc Hs. unfold dec_value. rewrite Hc, Hs. rewrite Z.eqb_refl. cbn [negb andb].
     rewrite be_min_value by apply Z.abs_nonneg.
     change c_dec_default_precision with 18. change c_dec_default_scale with 0.
     destruct (x <? 0) eqn:E.
-    - apply Z.ltb_lt in E. cbn [Z.eqb Pos.eqb]. do 3 f_equal. lia.
-    - apply Z.ltb_ge in E. cbn [Z.eqb]. do 3 f_equal. lia. }
+    - apply Z.ltb_lt in E. rewrite Z.eqb_refl. do 3 f_equal. lia.
+    - apply Z.ltb_ge in E. change (0 =? 1) with false. cbv iota. do 3 f_equal. lia. }
   destruct Ht as [Et|Et]; subst t; apply D; reflexivity.
 Qed.
 
